@@ -281,6 +281,12 @@ func replayOne(seed int64, i int, raw json.RawMessage) hx.Result {
 	if err := json.Unmarshal(raw, &r); err != nil {
 		panic(fmt.Sprintf("harness: bad record: %v", err))
 	}
+	// (the <U+XXXX> notation of the vocabulary, in the key sets as in the class maps)
+	for _, xs := range [][]string{r.KTop, r.KCon, r.KTpi} {
+		for j := range xs {
+			xs[j] = denote(xs[j])
+		}
+	}
 	res := runScenario(&r, newHistory(&r, i, seed))
 	if res == nil && r.Fam == "probe" {
 		// a probe (a recorded call re-executed): once after each earlier call of the model
@@ -301,6 +307,10 @@ func replayOne(seed int64, i int, raw json.RawMessage) hx.Result {
 
 func ntOf(r *rec) string {
 	kind := ""
+	if r.Kind == "route" {
+		// what is distinct about a route scenario: entry point, spelling, the operations
+		kind = "|" + r.Entry + "/" + r.Sp + ">" + strings.Join(r.Steps, ">")
+	}
 	if r.Kind == "hist" {
 		// what is distinct about a history scenario is the history
 		kind = "|after"
@@ -327,6 +337,8 @@ func runScenario(r *rec, h *history) *hx.Result {
 	var event []byte
 	var built gmsl.PDU
 	switch {
+	case r.Kind == "route":
+		return runRoute(r, h)
 	case r.Raw != "":
 		event = []byte(r.Raw)
 	case r.Fam == "pdu":
@@ -421,8 +433,11 @@ func runScenario(r *rec, h *history) *hx.Result {
 	}
 
 	// the same event received over federation (untrusted parse: strips unsigned / age_ts, checks the content hash)
+	// (not for a room version 3+ event whose JSON has an event_id member: receipt strips the member, which is part of
+	// what the content hash and the trusted parse's event ID cover)
+	_, idMember := orig["event_id"]
 	h.before()
-	if u, err := ver.NewEventFromUntrustedJSON(event); err == nil {
+	if u, err := ver.NewEventFromUntrustedJSON(event); err == nil && (isFormatV1(r.Ver) || !idMember) {
 		uid := u.EventID()
 		if !isFormatV1(r.Ver) && uid != before.ID {
 			return fail("C05/eventid/untrusted-differs", fmt.Sprintf("event ID after NewEventFromUntrustedJSON differs from the trusted parse (room version %s)", r.Ver), before.ID, uid)
@@ -583,6 +598,24 @@ func siblings(r *rec, ver gmsl.IRoomVersion, event []byte, wantID string, pj []b
 	q.Redact()
 	if res := same("SetUnsigned-then-Redact", q); res != nil {
 		return res
+	}
+	// the same event in other spellings of its JSON text (trusted JSON need not be canonical): same event ID before
+	// and after Redact(), same redacted form
+	if r.Raw == "" {
+		for _, sp := range []string{"rev", "esc"} {
+			if q, err = ver.NewEventFromTrustedJSON(respell(append([]byte(nil), event...), sp), false); err != nil {
+				return fail("C05/pdu/spelling/error", fmt.Sprintf("NewEventFromTrustedJSON refuses the event spelt %q: %v", sp, err), nil, nil)
+			}
+			if scenarioHash(r)%2 == 0 {
+				if q.EventID() != wantID {
+					return fail("C05/eventid/spelling-differs", fmt.Sprintf("event ID of the event spelt %q differs (room version %s)", sp, r.Ver), wantID, q.EventID())
+				}
+			}
+			q.Redact()
+			if res := same("trusted-JSON-spelt-"+sp, q); res != nil {
+				return res
+			}
+		}
 	}
 	// the already redacted JSON, parsed as an ordinary event and as one flagged redacted
 	for _, flag := range []bool{false, true} {
